@@ -24,9 +24,50 @@ type Scenario struct {
 	Tasks    [][]Op          `json:"tasks"`
 	Params   map[string]any  `json:"params,omitempty"`
 	Results  *ResultScenario `json:"results,omitempty"` // C20
+	// Prelude: runs executed before this one in the same process (their verdicts are ignored). Needed to replay
+	// violations that depend on process-wide state left behind by earlier runs. PreludeRef names them compactly by
+	// generator index; Prelude embeds them.
+	Prelude    []*Scenario `json:"prelude,omitempty"`
+	PreludeRef *PreludeRef `json:"prelude_ref,omitempty"`
 	// filled in when the scenario is written as a replay file
 	Expect *Violation `json:"expect,omitempty"`
 	Hash   string     `json:"event_hash,omitempty"`
+}
+
+type PreludeRef struct {
+	Seed uint64 `json:"seed"`
+	Tier string `json:"tier"`
+	Idx  []int  `json:"idx"`
+}
+
+// runScenario executes the preludes of sc (if any), then sc itself.
+func runScenario(p *Prop, sc *Scenario, keepLog bool) *RunReport {
+	if sc.PreludeRef != nil {
+		genTier = sc.PreludeRef.Tier
+		for _, idx := range sc.PreludeRef.Idx {
+			if rep := p.Run(p.Gen(sc.PreludeRef.Seed, sc.PreludeRef.Tier, idx), false); rep.HarnessErr != "" {
+				return rep
+			}
+		}
+	}
+	for _, pre := range sc.Prelude {
+		if rep := p.Run(pre, false); rep.HarnessErr != "" {
+			return rep
+		}
+	}
+	return p.Run(sc, keepLog)
+}
+
+// embedPrelude turns the compact prelude reference into embedded scenarios (self-contained replay file).
+func embedPrelude(p *Prop, sc *Scenario) {
+	if sc.PreludeRef == nil {
+		return
+	}
+	genTier = sc.PreludeRef.Tier
+	for _, idx := range sc.PreludeRef.Idx {
+		sc.Prelude = append(sc.Prelude, p.Gen(sc.PreludeRef.Seed, sc.PreludeRef.Tier, idx))
+	}
+	sc.PreludeRef = nil
 }
 
 func (sc *Scenario) NumOps() int {
